@@ -30,7 +30,7 @@ def ex_variants(tier):
               dict(ex_type=4, ex_ndim=2, ex_d0=0, ex_d1=3, ex_n=0, ex_nlen=3, ex_dlen=1),
               dict(ex_type=-1, ex_ndim=3, ex_d0=2, ex_d1=1, ex_d2=2, ex_n=4, ex_slen=2, ex_nlen=3, ex_dlen=17),
               dict(ex_type=-1, ex_ndim=0, ex_n=3, ex_slen=17, ex_nlen=3, ex_dlen=0),
-              dict(ex_type=2, ex_ndim=1, ex_d0=3, ex_n=3, ex_nlen=8, ex_dlen=1)]
+              dict(ex_type=2, ex_ndim=1, ex_d0=3, ex_n=3, ex_nlen=8, ex_dlen=1, only_groups=(0, 2))]
     return v
 
 def jobs(tier, seed):
@@ -38,7 +38,7 @@ def jobs(tier, seed):
     def J(**kw): out.append({'entry': 'h_c01', 'harness': 'h_c01.cpp', 'cfg': base(**kw)})
     top = 2 if tier == 'quick' else 3
     # shapes x orders, no extra parameter
-    shapes = [(p, c, s, f) for p in range(top + 1) for c in range(top + 1) for s in range(1, top + 1) for f in range(top + 1) if not (c == 0 and s > 1)]
+    shapes = [(p, c, s, f) for p in range(top + 1) for c in range(top + 1) for s in range(1, top + 1) for f in range(top + 1) if not (c == 0 and s > 1) and not (p == 0 and c == 0 and f > 0)]
     if tier == 'quick':
         shapes = [x for x in shapes if x in ((0, 0, 1, 0), (1, 0, 1, 1), (0, 1, 1, 1), (0, 2, 2, 2), (2, 1, 2, 2), (2, 2, 1, 2), (1, 1, 2, 0), (2, 0, 1, 2), (1, 2, 2, 1))]
     for (p, c, s, f) in shapes:
@@ -48,7 +48,9 @@ def jobs(tier, seed):
     for i, ev in enumerate(ex_variants(tier)):
         for order in (0, 1, 2):
             for g in ((0, 1, 2) if tier == 'thorough' else ((i + order) % 3,)):
-                J(P=1, C=1, S=1, F=1, order=order, ex_group=g, **ev)
+                ev2 = dict(ev); og = ev2.pop('only_groups', None)
+                if og is not None and g not in og: continue     # a long symbolic name against the 8 names of POINT explodes (8 string compares per path)
+                J(P=1, C=1, S=1, F=1, order=order, ex_group=g, **ev2)
     # analog-only content without a POINT:RATE (one sub-frame per frame)
     for order in (0, 1, 2): J(P=0, C=2, S=1, F=2, order=order, norate=1)
     # alignment sweep: the parameter section length goes through all 512 residues modulo the block size (0.3 s per save/load);
